@@ -133,6 +133,28 @@ class SynthUnary(object):
         return list(self._parsed.get(str(x), ()))
 
 
+class ExplosiveBinary(object):
+    """stress grammar: every category pair combines into one of M hashed categories, so the category
+    table and the rule cache grow to hundreds of thousands of entries within one sentence (tuning
+    constants / capacity limits that ordinary workloads never reach)"""
+
+    def __init__(self, modulus, salt):
+        self.modulus = modulus
+        self.salt = salt
+
+    def __call__(self, x, y):
+        import hashlib
+        from depccg.cat import Atom
+        from depccg.types import CombinatorResult
+        h = int(hashlib.md5(f'{self.salt}|{x}|{y}'.encode()).hexdigest()[:8], 16) % self.modulus
+        return [CombinatorResult(Atom(f'H{h}'), 'e', '<e>', True)]
+
+
+class NoUnary(object):
+    def __call__(self, x):
+        return []
+
+
 class FaultyCallable(object):
     """F4: raises at its k-th invocation (counted per process copy, as a real
     pickled callable would)"""
@@ -178,6 +200,11 @@ def build_from_spec(spec):
         heads = {v[3] for vals in table.values() for v in vals}
         head_uniform = len(heads) <= 1
         lang = spec.get('lang', 'en')
+    elif kind == 'explosive':
+        binary = ExplosiveBinary(spec['modulus'], spec['salt'])
+        unary = NoUnary()
+        head_uniform = True
+        lang = 'en'
     elif kind == 'real':
         lang = spec['lang']
         variant = spec.get('variant', lang)
